@@ -281,9 +281,10 @@ PROPS = {
              "args": ["--kinds", "cumul", "--probes", "200"]},
             {"name": "fix", "mode": "fix", "quick": 2500, "thorough": 60000, "args": []},
             {"name": "timetable", "mode": "fix", "quick": 800, "thorough": 20000, "args": ["--kinds", "cumul"]},
+            {"name": "store", "mode": "asg", "quick": 600, "thorough": 15000, "args": []},
         ],
-        "relevant": panic_or({"infer", "minfer", "nogood", "bad", "implicit", "fix"}, ["tap", "fix"]),
-        "lean_modules": ["Pumpkin.Model.ImplicitReason", "Pumpkin.Model.Propagation", "Pumpkin.Model.PropagationSound", "Pumpkin.Model.PropagationArith", "Pumpkin.Model.PropagationCompile", "Pumpkin.Model.Cumulative", "Pumpkin.Model.CumulativeSound"],
+        "relevant": panic_or({"infer", "minfer", "nogood", "bad", "implicit", "fix", "asg"}, ["tap", "fix", "asg"]),
+        "lean_modules": ["Pumpkin.Model.ImplicitReason", "Pumpkin.Model.Propagation", "Pumpkin.Model.PropagationSound", "Pumpkin.Model.PropagationArith", "Pumpkin.Model.PropagationCompile", "Pumpkin.Model.Cumulative", "Pumpkin.Model.CumulativeSound", "Pumpkin.Model.AssignmentsHist"],
         "level_text": "Proof: Model/Propagation.lean models the propagators themselves as functions on domains, statement by statement after the Rust sources (LinearLeq, LinearNe, IntAbs, Maximum, IntTimes incl. propagate_signs, Division incl. sign normalisation / propagate_upper_bounds / propagate_positive_domains, Element (four phases), cumulative (time-table filtering at its fixpoint: Model/Cumulative.lean, posted with the default options; half-reified incl. the oversize-task decision at posting), the unit rule of the nogood propagator after add_permanent_nogood's semantic minimisation, the reified wrapper with detect_inconsistency and the initialise_at_root conflict), the decomposition of constraints into propagators (equals, not_equals, all_different, minimum, negation, implied_by, reify) and the fixpoint; pass_ok / propagation_never_prunes / propagation_conflict_sound / fixpoint_never_prunes prove for ALL domain states, views and constants that a pass (and the fixpoint of any set of propagators) never removes a value used by a solution of its constraint within the current domains and reports a conflict only if there is none (the division and multiplication rules included: truncating division, sign cases, ceil/floor bounds). Tied exactly: a recording brancher snapshots the domains of all variables at every decision point of real solves (`fix` records); root state = model of sequential posting, state after each decision = fixpoint of (previous state + decision), conflicts = model conflicts, exactly, until the first learned nogood (afterwards the real state must be a subset); independently the verified oracle checks that no value of a solution within the start domains is ever pruned. A mismatch that is not a pruned solution is reported as a broken correspondence (no-failing-input-found unless the run's oracle-judged records find one). implicit_reason_entails / implicit_reason_progress — Model/ImplicitReason.lean mirrors the nine arms (and assertion guards) of get_propagation_reason for predicates that are not literally on the trail; every reason it produces entails the explained predicate for ALL integer values and never contains it; tied exactly: the hook records the trail predicate next to each implicit reason and the model must produce the identical list. checkInference_iff — the acceptor for an explanation (premises -> conclusion, or -> false) is equivalent to semantic entailment from the single tagged constraint within the declared domains, hence sound AND complete (never rejects a valid explanation); accepted_propagation / accepted_conflict / never_prunes_solution / accepted_model_inference. Tie to code (hook: explanation tap): every propagation (reason computed immediately, lazy reasons included), every reported conflict, every reason handed to conflict analysis later (explicit, lazily recomputed, implicit) and every learned nogood during real searches is recorded with the propagator's tag and judged; 'all reason predicates hold in the state in which the reason is given' is evaluated inside the hook.",
         "level_note": LEVEL_NOTE_COMMON + "Enumeration limits trace acceptance to small domains; nogood-propagator reasons are judged against the whole model.",
     },
